@@ -222,12 +222,30 @@ package core
 //@   pure
 
 // Accessors used by the garbage collector's contracts (C25): functions of the target / graph.
+// provideFor: what a target provides for a dependant is listed in the order of the DEPENDANT's requires list (a
+// slice), never in the iteration order of the provider's Provides map — it feeds the order of sources and so the
+// source hash (C07).
+//@ func (BuildTarget).provideFor
+//@   requires target != nil && other != nil
+//@   opt nopanic=off
+//@   opt panics=allowed
+//@   opt precall=off
+//@   callsite append never_in_map_iteration_order [C07]: !inmaprange()
+//@   invariant "range other.Requires" in_requires_order [C07]: found == (len(ret) > 0 || found) && \
+//@      (forall j int :: 0 <= j && j < idx ==> (in(other.Requires[j], target.Provides) ==> found))
+// DeclaredDependencies: the declared labels in the TOTAL label order (subrepo, then package, then name), so the
+// list — and the rule hash that writes it — is the same whatever order the dependencies were added in (C07).
+//@ spec labelLess(a BuildLabel, b BuildLabel) bool = a.Subrepo < b.Subrepo || (a.Subrepo == b.Subrepo && \
+//@      (a.PackageName < b.PackageName || (a.PackageName == b.PackageName && a.Name < b.Name)))
 //@ func (BuildTarget).DeclaredDependencies
 //@   property C01
+//@   requires target != nil
 //@   modifies nothing
 //@   opt nopanic=off
 //@   opt panics=allowed
+//@   opt permutation=multiset
 //@   pure
+//@   ensures in_the_total_label_order [C07]: forall i int :: 0 < i && i < len(result) ==> !labelLess(result[i], result[i-1])
 //@ assume func (BuildGraph).Target
 //@   pure
 //@ assume func (BuildTarget).AllLocalSourcePaths
